@@ -1,7 +1,7 @@
 import Dmn.Model.Sexp
 import Dmn.Model.Workspace
 
-/-! Driver handler for C17: `(c17 run (op…) (probe-name…))` and `(c17 spec (op…) (probe-name…))`
+/-! Driver handler for C17: `(c17 load (doc…) (probe-name…))`, `(c17 run (op…) (probe-name…))` and `(c17 spec (op…) (probe-name…))`
 (names: atoms, or `(s …)` when they have white space). -/
 
 namespace Dmn.Driver.C17
@@ -60,8 +60,23 @@ def specResults (l : List Def) : List Op → List Def × List Res
 def mapEntries (m : Map) : List String :=
   sortStrings (m.map (fun (k, d) => s!"({k} {d.ns} {d.name})"))
 
+/-- a file of the directory: `x` (not a model) or `(m ns name builds)` -/
+def docOf : Sexp → Option Doc
+  | .atom "x" => some .unreadable
+  | .list (.atom "m" :: r) => (defOf r).map .model
+  | _ => none
+
 def handle (args : List Sexp) : String :=
   match args with
+  -- `(c17 load (doc…) (probe-name…))`: `Workspace::new(dir)` with the files read in this order
+  | [.atom "load", .list docs, .list probes] =>
+    match docs.mapM docOf, probes.mapM nameOf with
+    | some docs, some probes =>
+      let s := load docs
+      let defs := " ".intercalate ("defs" :: s.defs.map (fun d => s!"({d.ns} {d.name})"))
+      let can := " ".intercalate ("can" :: probes.filter (canEvaluate s))
+      s!"(({defs}) ({can}))"
+    | _, _ => "(error bad-doc)"
   | [.atom "run", .list ops, .list probes] =>
     match ops.mapM opOf with
     | none => "(error bad-op)"
